@@ -204,3 +204,38 @@ Example C13_paths_nonvacuous :
   scanb 4 2 false (rrunl (mkROracle (fun _ _ => 2%nat) (fun _ _ => true)) bad []) = None.
 Proof. cbv zeta. repeat split; vm_compute; reflexivity. Qed.
 Print Assumptions C13_paths_nonvacuous.
+
+(* END TO END for straight-line functions (any ops in any order, existing barriers, deallocs; no
+   aliasing: one SSA value = one buffer): the output of the pass has every DM/compute pair that uses
+   a common value guarded, hence on its (single) path every phase is conflict free and every
+   interleaving of the cores computes the memory of the program order.  For programs with loops and
+   branches the same conclusion holds whenever [all_guarded] holds of the output
+   (C13_all_guarded_any_interleaving), which the check evaluates on the real output; the pass
+   establishes it there for the SameLevel class only positionally (theorems above). *)
+Theorem C13_straightline_pass_all_guarded :
+  forall p0 flat, straight p0 flat -> all_guarded (map leaf_of (run_pass flat)) = true.
+Proof. exact straightline_pass_all_guarded. Qed.
+Print Assumptions C13_straightline_pass_all_guarded.
+
+Theorem C13_straightline_pass_drf :
+  forall p0 flat, straight p0 flat ->
+  forall o ss m,
+  Forall2 schedule_of (map (filter specific) (split_phases [] (rrunl o (map leaf_of (run_pass flat)) []))) ss ->
+  meq (exec (concat ss) m)
+      (exec (concat (map (filter specific) (split_phases [] (rrunl o (map leaf_of (run_pass flat)) [])))) m).
+Proof. exact straightline_pass_drf. Qed.
+Print Assumptions C13_straightline_pass_drf.
+
+(* non-vacuity: copy -> %1 ; generic %1 -> %2 ; copy %2 -> out : straight, two barriers inserted,
+   three phases of one op each *)
+Example C13_straightline_nonvacuous :
+  let flat := [ mkInfo 1 BDM [100; 101] [] 0 false 0; mkInfo 2 BCompute [101; 102] [] 0 false 0;
+                mkInfo 3 BDM [102; 103] [] 0 false 0 ] in
+  straight 0 flat /\ barriers flat = [3; 2] /\
+  map (@length mop) (map (filter specific) (split_phases [] (rrunl (mkROracle (fun _ _ => 0%nat) (fun _ _ => true))
+                                                                   (map leaf_of (run_pass flat)) []))) = [1; 1; 1]%nat.
+Proof.
+  cbv zeta. split; [|split; vm_compute; reflexivity].
+  split; [intros y [<-|[<-|[<-|[]]]]; reflexivity|]. simpl. repeat constructor; simpl; intuition discriminate.
+Qed.
+Print Assumptions C13_straightline_nonvacuous.
